@@ -101,9 +101,20 @@ func propTable() map[string]*PropSpec {
 		for _, l := range []int{0, 1, 2, 3, 4, 5, 6, 7, 8, 12, 16, 20, 24} {
 			th = append(th, rc(fmt.Sprintf("C02_Bytes/len=%d", l), ".", "C02_Bytes", map[string]int{"len": l}))
 		}
+		for _, k := range []int{1, 3, 4} {
+			c := rc(fmt.Sprintf("C02_Mutate/signers=%d", k), ".", "C02_Mutate", map[string]int{"signers": k})
+			c.RequireReach = []string{"C02.mutate.rejected"}
+			if k >= 3 {
+				c.RequireReach = []string{"C02.mutate.rejected", "C02.mutate.accepted"}
+			}
+			th = append(th, c)
+			if k == 1 {
+				q = append(q, c)
+			}
+		}
 		t["C02"] = &PropSpec{ID: "C02", Quick: q, Thorough: th,
 			Assumptions: []string{"ideal signature registry (zzverifstub.Registry): a signature verifies exactly for the (signer, height, content bytes) it was made for", "block commitment stub: hash is the block's one-byte tag", "random-seed summaries: seed = the 8 signature bytes (injective), group signature = injective function of (height, seed)"},
-			Bounds:      []string{"committee of 4 (ids 1..4), symbolic 64-bit weights; structured proofs with 0..5 signers, every field symbolic (type tag 16 bit, instance/height/view 64 bit, hash 1 byte, signer ids 1 byte, signatures 8 bytes, per-signer validity symbolic); arbitrary proof byte strings of length <= 12 (quick) / <= 24 (thorough)"},
+			Bounds:      []string{"committee of 4 (ids 1..4), symbolic 64-bit weights; structured proofs with 0..5 signers, every field symbolic (type tag 16 bit, instance/height/view 64 bit, hash 1 byte, signer ids 1 byte, signatures 8 bytes, per-signer validity symbolic); arbitrary proof byte strings of length <= 12 (quick) / <= 24 (thorough)", "structured mutation: a genuine certificate of 1 (quick) / 1, 3, 4 (thorough) signers, equal concrete weights, with one 4-byte aligned window at a symbolic position replaced by a little-endian value below 64 or within 64 of 2^32 (no panic, also not from goroutines the validation might spawn)"},
 			Outside:     []string{"arbitrary byte strings longer than 24 bytes; committees other than 4 members; hashes/ids longer than one byte"},
 		}
 	}
@@ -130,6 +141,15 @@ func propTable() map[string]*PropSpec {
 			c.RequireReach = []string{"C12.future.synced"}
 			th = append(th, c)
 			if kind == 0 || kind == 3 {
+				q = append(q, c)
+			}
+		}
+		// ValidateBlockConsensus / GetMemberIdsFromBlockProof on a genuine certificate with one mutated window
+		for _, k := range []int{1, 3} {
+			c := rc(fmt.Sprintf("C02_Mutate/signers=%d", k), ".", "C02_Mutate", map[string]int{"signers": k})
+			c.RequireReach = []string{"C02.mutate.rejected"}
+			th = append(th, c)
+			if k == 1 {
 				q = append(q, c)
 			}
 		}
@@ -640,6 +660,11 @@ func propTable() map[string]*PropSpec {
 			c.RequireReach = []string{"C14.sync_during_commit"}
 			q = append(q, c)
 		}
+		// UpdateState while the worker's message queue is full (the worker is busy in a long SPI call)
+		fq14 := rc("C12_FullQueue", ".", "C12_FullQueue", nil)
+		fq14.MaxLoop = 1200
+		fq14.RequireReach = []string{"C12.fullqueue.done"}
+		q = append(q, fq14)
 		t["C14"] = &PropSpec{ID: "C14", Quick: q, Thorough: q, LabelPrefixes: []string{"C14."},
 			StaticChecks: []func(eng *Engine) (string, bool, string){staticSingleSender, staticSingleWriter},
 			Assumptions:  []string{"same sequential reduction as C13; the main loop is (statically checked) the only sender on the worker's update-state channel"},
@@ -697,6 +722,8 @@ func propTable() map[string]*PropSpec {
 			dbl,
 			mk(0, 3, 0, 1, 2, 0, 0, 1), // Byzantine first leader equivocated (Y side committed); one symbolic COMMIT to the X side
 		}
+		// prefix 5: the view-1 proposal was adopted but not prepared; the Byzantine leader of view 2 sends one symbolic
+		// NEW_VIEW and then goes along (genuine PREPARE / COMMIT) with whatever the correct nodes prepared
 		// deep prefix: weights 1,2,3,4 (Byzantine weight 1), views up to 6; one symbolic proof-carrying vote to
 		// the correct leader of view 6 while the honest votes for that view are in flight
 		deep := mk(0, 4, 5, 1, 4, 0, 0, -1)
@@ -704,8 +731,17 @@ func propTable() map[string]*PropSpec {
 		deep.Params["weights"] = 1
 		deep.RequireReach = []string{"C01.two_commits"}
 		q = append(q, deep)
+		lossy5 := mk(2, 5, 0, 1, 5, 0, 0, 3)
+		lossy5.Name += "/byzfollow=1"
+		lossy5.Params["byzfollow"] = 1
+		q = append(q, lossy5)
 		q[2].RequireReach = []string{"C01.some_commit"}
 		th := append([]RunConfig{}, q...)
+		// prefix 5 with a proof-carrying vote in the symbolic NEW_VIEW
+		lossy6 := mk(2, 5, 0, 1, 6, 0, 0, 3)
+		lossy6.Name += "/byzfollow=1"
+		lossy6.Params["byzfollow"] = 1
+		th = append(th, lossy6)
 		eq := mk(0, 0, 0, 2, 0, 0, 1, -1) // Byzantine first leader: two proposals to symbolic subsets (class 0: view unrestricted)
 		eq.Params["kinds"] = 0
 		th = append(th, eq)
